@@ -5,7 +5,12 @@ pub mod c01;
 pub mod c02;
 pub mod c03;
 pub mod c04;
+pub mod c05;
+pub mod c06;
+pub mod c07;
 pub mod c08;
+pub mod c09;
+pub mod c10;
 pub mod c15;
 
 pub fn run(ctx: &Ctx) -> i32 {
@@ -14,7 +19,12 @@ pub fn run(ctx: &Ctx) -> i32 {
         "C02" => c02::run(ctx),
         "C03" => c03::run(ctx),
         "C04" => c04::run(ctx),
+        "C05" => c05::run(ctx),
+        "C06" => c06::run(ctx),
+        "C07" => c07::run(ctx),
         "C08" => c08::run(ctx),
+        "C09" => c09::run(ctx),
+        "C10" => c10::run(ctx),
         "C15" => c15::run(ctx),
         other => {
             eprintln!("unknown property {}", other);
@@ -29,7 +39,12 @@ pub fn replay(prop: &str, op: &str, case: &Value, acc: &mut Acc) -> bool {
         "C02" => c02::replay(op, case, acc),
         "C03" => c03::replay(op, case, acc),
         "C04" => c04::replay(op, case, acc),
+        "C05" => c05::replay(op, case, acc),
+        "C06" => c06::replay(op, case, acc),
+        "C07" => c07::replay(op, case, acc),
         "C08" => c08::replay(op, case, acc),
+        "C09" => c09::replay(op, case, acc),
+        "C10" => c10::replay(op, case, acc),
         "C15" => c15::replay(op, case, acc),
         _ => false,
     }
